@@ -269,7 +269,7 @@ pub fn execute(v: &Value, kinds: &[usize]) -> String {
     let graph = catch_unwind(AssertUnwindSafe(|| Graph::import(&state_of(&notes), options.clone())));
     let (srv, graph) = match (srv, graph) {
         (Ok(s), Ok(g)) => (s, g),
-        _ => return gapp("AC", &[lc, gbool(seq), "[]".into(), "[]".into()]),
+        _ => return gapp("AC", &[lc, gbool(seq), "[]".into(), "[]".into(), "[]".into()]),
     };
 
     // every second case is also asked on a server that reached the same texts through edits
@@ -366,7 +366,22 @@ pub fn execute(v: &Value, kinds: &[usize]) -> String {
             }
         }
     }
-    gapp("AC", &[lc, gbool(seq), glist(&lines_out), glist(&acts_out)])
+    // table oracle for a note whose tables are written into ANOTHER directory of the library (inlining a
+    // note from another directory): the note links of table cells are written relative to the note
+    let mut dirs: Vec<String> = sorted.iter().map(|(n, _)| Key::name(n).parent()).collect();
+    dirs.sort();
+    dirs.dedup();
+    let mut xtables = vec![];
+    for (name, _) in &sorted {
+        let key = Key::name(name);
+        if lib_stage::tables_of(&graph, &key, &options).is_empty() { continue; }
+        for d in &dirs {
+            if *d == key.parent() { continue; }
+            let t = lib_stage::tables_of_at(&graph, &key, d, &options);
+            xtables.push(gpair(&gstr(&key.to_string()), &gpair(&gstr(d), &glist(&t.iter().map(|x| gstr(x)).collect::<Vec<_>>()))));
+        }
+    }
+    gapp("AC", &[lc, gbool(seq), glist(&xtables), glist(&lines_out), glist(&acts_out)])
 }
 
 // ------------------------------------------------------------------ generators
